@@ -377,17 +377,21 @@ func c153(c *an.Ctx, p *an.Prog) {
 	c.Check(len(bad) == 0 && effs[an.EffFSRename], "C15.3", fnKey(fn)+"|effects", p.Pos(fn.Pos()), "effect set "+joinS(sortedKeys(effs))+": stat + rename (+ directory fsync), no content write, create or delete", "set-admin effect set: "+strings.Join(bad, "; "))
 }
 
-func c082as(c *an.Ctx, p *an.Prog, x *fsx) {
-	// reuse the C08.3 decision under the C15.4 rule id
-	sub := an.NewCtx("C15", c.Tier, c.Seed)
+func c082as(c *an.Ctx, p *an.Prog, x *fsx) { c083under(c, p, x, "C15.4") }
+
+// c083under: the C08.3 decision (the rest of the old file is copied verbatim behind the new first line on every path to
+// the committing rename) under another property's rule id — C15.4, and C12.6 ("admin flag and auxiliary data unchanged" by
+// an upgrade: the upgrade is an update through the same writer).
+func c083under(c *an.Ctx, p *an.Prog, x *fsx, id string) {
+	sub := an.NewCtx(id[:3], c.Tier, c.Seed)
 	sub.P = p
 	c082(sub, p, x, "C08")
 	for _, o := range sub.Obs {
 		if o.Rule == "C08.3" {
 			if o.Status == "discharged" {
-				c.OK("C15.4", strings.TrimPrefix(o.Key, "C08.3|"), o.Pos, o.Detail)
+				c.OK(id, strings.TrimPrefix(o.Key, "C08.3|"), o.Pos, o.Detail)
 			} else {
-				c.Fail("C15.4", strings.TrimPrefix(o.Key, "C08.3|"), o.Pos, o.Detail)
+				c.Fail(id, strings.TrimPrefix(o.Key, "C08.3|"), o.Pos, o.Detail)
 			}
 		}
 	}
